@@ -205,12 +205,25 @@ def analyze(template: BoundTemplate, *, include_partials: bool) -> TemplateAnaly
             # If we've seen this partial before but with different arguments,
             # we might want to visit it again but only capture globals.
             _just_globals = partial_name in seen
-            if partial.key in seen[partial_name]:
+
+            partial_key = partial.key
+            if partial.scope != PartialScope.ISOLATED:
+                # A partial that shares its parent's scope can resolve different
+                # names each time it is loaded. Take the names in scope into account.
+                partial_key = hash(
+                    (
+                        partial_key,
+                        frozenset(str(name) for name in partial.in_scope),
+                        frozenset(str(name) for names in scope.stack for name in names),
+                    )
+                )
+
+            if partial_key in seen[partial_name]:
                 # We've visited this partial template before with the same
                 # arguments.
                 return
 
-            seen[partial_name].add(partial.key)
+            seen[partial_name].add(partial_key)
             partial_name = partial_name or template_name
 
             partial_scope = (
@@ -326,12 +339,25 @@ async def analyze_async(
             # If we've seen this partial before but with different arguments,
             # we might want to visit it again but only capture globals.
             _just_globals = partial_name in seen
-            if partial.key in seen[partial_name]:
+
+            partial_key = partial.key
+            if partial.scope != PartialScope.ISOLATED:
+                # A partial that shares its parent's scope can resolve different
+                # names each time it is loaded. Take the names in scope into account.
+                partial_key = hash(
+                    (
+                        partial_key,
+                        frozenset(str(name) for name in partial.in_scope),
+                        frozenset(str(name) for names in scope.stack for name in names),
+                    )
+                )
+
+            if partial_key in seen[partial_name]:
                 # We've visited this partial template before with the same
                 # arguments.
                 return
 
-            seen[partial_name].add(partial.key)
+            seen[partial_name].add(partial_key)
             partial_name = partial_name or template_name
 
             partial_scope = (
